@@ -250,7 +250,14 @@ def sweep(ctx, suite, label, kind, make, kclasses, hi_of, inp_desc, pairs=False,
         if base_k is not None and plan and all(st in INCONCLUSIVE for st in plan.values()):
             ctx.rep.cov["oracle_evaluations"] += 1
             k_f = accepted(r)
-            if k_f is not None and k_f != base_k:
+            if k_f is not None and k_f < base_k:
+                # the faulted search found FEWER routes than the fault-free one: then it is the fault-free answer that is not
+                # minimal (an over-estimating lower bound, i.e. the min-gen-set findings of C04 / C05) - not a C13 matter:
+                # the faulted answer was proven for its k with every smaller k infeasible (checked by `compare` above)
+                h = ctx.rep.suite(suite)["histogram"]
+                h["fault-free answer larger than a faulted one (lower bound over-estimates: C04/C05)"] = \
+                    h.get("fault-free answer larger than a faulted one (lower bound over-estimates: C04/C05)", 0) + 1
+            if k_f is not None and k_f > base_k:
                 ctx.violation(f"{label}: with the inconclusive solver run(s) {plan} the search reports an answer with k={k_f} "
                               f"({r['answer']} routes), the fault-free search proves the minimum k={base_k}",
                               {"class": label, "input": inp_desc, "plan": {str(a): b for a, b in plan.items()}, "trace": r["trace"],
@@ -289,7 +296,7 @@ def run(ctx):
             sweep(ctx, "K3.corpus", "MinFlowDecomp", "stop", mk, [fp.kFlowDecomp],
                   lambda m: ctx.model_hi("MinFlowDecomp", m), dict(gdesc(G), options=copts, corpus=pth.name), pairs=thorough)
     # ---- MinFlowDecomp
-    for it in range(ctx.n(6, 40)):
+    for it in range(ctx.n(6, 24)):
         G = mfd_input(rng)
         greedy = rng.random() < 0.3
         opts = {"optimize_with_greedy": greedy}
@@ -303,13 +310,13 @@ def run(ctx):
         sweep(ctx, "K3.MinFlowDecomp", "MinFlowDecomp", "stop", mk, [fp.kFlowDecomp],
               lambda m: ctx.model_hi("MinFlowDecomp", m), dict(gdesc(G), options=dict(opts)), pairs=thorough)
     # ---- MinPathCover
-    for it in range(ctx.n(5, 30)):
+    for it in range(ctx.n(5, 18)):
         G = mfd_input(rng)
         mk = lambda: fp.MinPathCover(G, solver_options={"time_limit": 300})
         sweep(ctx, "K3.MinPathCover", "MinPathCover", "stop", mk, [fp.kPathCover],
               lambda m: ctx.model_hi("MinPathCover", m), gdesc(G), pairs=thorough)
     # ---- cyclic
-    for it in range(ctx.n(5, 30)):
+    for it in range(ctx.n(5, 18)):
         G = cyc_input(rng)
         f = walk_flow(rng, G)
         for e, w in f.items():
@@ -340,7 +347,7 @@ def run(ctx):
                                             solver_options={"time_limit": 300})
         sweep(ctx, "K3.MinFlowDecompCycles", "MinFlowDecompCycles", "timed", mk, [fp.kFlowDecompCycles],
               lambda m: ctx.model_hi("MinFlowDecompCycles", m), dict(gdesc(G), options=dict(copts)), pairs=False, timed=True)
-    for it in range(ctx.n(5, 30)):
+    for it in range(ctx.n(5, 18)):
         G = cyc_input(rng)
         mk = lambda: fp.MinPathCoverCycles(G, solver_options={"time_limit": 300})
         sweep(ctx, "K3.MinPathCoverCycles", "MinPathCoverCycles", "stop", mk, [fp.kPathCoverCycles],
